@@ -272,6 +272,46 @@ func c07Exec(c *engine.Ctx, cs c07Case) {
 				fail("unequal", fmt.Sprintf("%s: %s", data, d))
 				return
 			}
+			// Feature.MarshalJSON called directly (as a json.Marshaler is by any encoder that keeps
+			// the bytes): the document is the caller's - marshalling OTHER features afterwards must
+			// not change it. Three two-step histories: the later document is shorter, equally long
+			// (when the feature has an id to vary) and longer than the retained one - a reused
+			// buffer is overwritten in place by the first two and re-allocated by the third.
+			other := &geojson.Feature{ID: "another-feature-with-a-much-longer-identifier", Geometry: geom.NewLineStringFlat(geom.XY, []float64{9, 8, 7, 6, 5, 4}), Properties: map[string]interface{}{"zzzz": "yyyyyyyyyyyyyyyyyyyy"}}
+			followers := []func(){
+				func() { (&geojson.Feature{ID: "z"}).MarshalJSON() },
+				func() {
+					same := mk()
+					same.ID = strings.Repeat("#", len(same.ID))
+					same.MarshalJSON()
+				},
+				func() {
+					other.MarshalJSON()
+					(&geojson.FeatureCollection{Features: []*geojson.Feature{other, other}}).MarshalJSON()
+				},
+			}
+			for fi, follow := range followers {
+				var direct []byte
+				if p, _ := engine.Guard(func() {
+					direct, err = mk().MarshalJSON()
+					if err == nil {
+						follow()
+					}
+				}); p != nil || err != nil {
+					fail("marshaljson-direct", fmt.Sprintf("Feature.MarshalJSON: err %v panic %v", err, p))
+					return
+				}
+				var backDirect geojson.Feature
+				derr := json.Unmarshal(direct, &backDirect)
+				d := ""
+				if derr == nil {
+					d = c07CheckFeature(&backDirect, cs, 0)
+				}
+				if derr != nil || d != "" {
+					fail("retained-document-changed", fmt.Sprintf("the document returned by Feature.MarshalJSON, read again after a later MarshalJSON call (follower %d), is %s: %v %s", fi, clipStr(string(direct), 300), derr, d))
+					return
+				}
+			}
 			// the emitted geometry member is an RFC geometry object or null
 			var doc map[string]json.RawMessage
 			if jerr := json.Unmarshal(data, &doc); jerr != nil || string(doc["type"]) != `"Feature"` {
